@@ -1250,6 +1250,7 @@ fn external(seed: u64, n: usize, corpus: Option<&Path>, text: bool) -> Vec<Case>
 
 // ------------------------------------------------------------------ files
 
+#[derive(Clone)]
 enum FT { File(String), Dir(String, Vec<FT>), Link(String) }
 
 fn ft_sexp(t: &FT) -> String {
@@ -1307,8 +1308,16 @@ fn files(seed: u64, n: usize) -> Vec<Case> {
         std::fs::create_dir_all(&root).unwrap();
         let k = 1 + rng.below(5);
         let mut used = vec![];
-        let args: Vec<FT> = (0..k).map(|_| gen_ft(&mut rng, 2, &mut used)).collect();
+        let mut args: Vec<FT> = (0..k).map(|_| gen_ft(&mut rng, 2, &mut used)).collect();
         for a in &args { ft_create(&root, a); }
+        // one case in five names one of its arguments a second time (the same path twice is two visits: `a.lp a.lp b.lp`
+        // compares a.lp with itself); read off the generator state, no extra draw
+        if rng.0 % 5 == 0 {
+            let j = (rng.0 / 5) as usize % args.len();
+            let at = (rng.0 / 64) as usize % (args.len() + 1);
+            let dup = args[j].clone();
+            args.insert(at, dup);
+        }
         let req = format!("(files_sort {})", sexp::list(args.iter().map(ft_sexp)));
         let paths: Vec<std::path::PathBuf> = args.iter().map(|a| root.join(match a { FT::File(n) | FT::Dir(n, _) | FT::Link(n) => n })).collect();
         let rootc = root.clone();
